@@ -280,6 +280,7 @@ class Unit:
     seg_attrs: str = ""
     canary: str = ""              # proof fn text `requires <pre> ensures false` (must FAIL)
     functions: List[str] = field(default_factory=list)  # repo functions this unit puts under contract (for evidence)
+    optional_loops: bool = False  # an invariant for a loop ordinal the body no longer has is dropped instead of UNDECIDED
 
 
 @dataclass
@@ -548,6 +549,8 @@ def _splice_body(u: Unit, body: str, file: str, first_line: int) -> List[Piece]:
         if loop_aids_moot:
             continue
         if ordinal < 1 or ordinal > len(heads):
+            if getattr(u, "optional_loops", False):
+                continue
             raise LostAnchor("%s: loop #%d not found (body has %d loops)" % (u.name, ordinal, len(heads)))
         _, brace = heads[ordinal - 1]
         inserts.append((brace, "\n" + inv.rstrip() + "\n", "%s:loop%d" % (u.name, ordinal)))
